@@ -13,6 +13,9 @@
   original tree (reference tokenizer + builder, as C01_roundtrip); with indentation it is `prettyTree sup doc`
   (Lemmas/SerIndent*.lean, LexLines.lean): the original plus whitespace-only text nodes, none inside mixed
   or suppressed content nor in `xml:space="preserve"` scope (`C14_options_indent`, `C14_indent_where`).
+  Inner start node (`C14_indent_inner_serialisation`, `C14_indent_roundtrip_inner(_nodes)`, Lemmas/SerIndentInner.lean):
+  an ELEMENT anywhere inside a tree, serialised with indentation, gives the text of its standalone document
+  (Model/InnerStartSpec.lean, as C01_roundtrip_inner) serialised with indentation, and parses to `prettyTree sup` of it.
   Normalizer (`C14_normalizer_*`, Model/Normalizer.lean, Lemmas/Normalizer*.lean): for EVERY caller-supplied
   normalizer `N`, `serialize_xml_string_with_normalizer` = `serialize_xml_string` of the tree with `N` applied
   to its text and attribute values — the normalizer runs BEFORE the escaping — under exactly two side
@@ -31,6 +34,7 @@ import XotModel.Lemmas.CdataToken
 import XotModel.Lemmas.C14Proofs
 import XotModel.Lemmas.SerOptDecl
 import XotModel.Lemmas.SerIndentWhere
+import XotModel.Lemmas.SerIndentInner
 import XotModel.Lemmas.NormalizerFullwidth
 import XotModel.Props.C01
 
@@ -599,6 +603,85 @@ example : ∃ q, parseString .document c01Env c14IndText = .ok q ∧ q.tree = pr
   obtain ⟨q, h1, h2, _⟩ := C14_options_indent c01Env { indentation := some [] } [] c14Ind (by decide) rfl rfl
     (by intro d e hd; cases hd) c14IndText (by decide)
   exact ⟨q, h1, h2⟩
+
+/-! ### Indentation for an element start node INSIDE a tree
+
+`serialize_xml_string(element, indentation)` for an element that has ancestors: `XmlSerializer::new` seeds the
+name stack with `namespaces_in_scope(element)`, the start tag also writes the inherited declarations (C01, "a start
+node inside a tree"), and the `Pretty` stack starts empty at the element.  `standalone t q` = `D [ e' ]`, `e'` the
+element with one namespace node per inherited declaration in front of its children. -/
+
+/-- **Theorem A with indentation**: the call on the inner element IS the call on the root of its standalone
+    document — the same text (white space included) or the same error — any suppress list, any token parameters,
+    with or without declaration, no doctype; the standalone document is in the round-trip domain. -/
+theorem C14_indent_inner_serialisation (env : Env) (p : XmlParams) (sup : List Nat) (t : Tree) (q : Path)
+    (name : Nat) (ks : List Tree) (henv : envOK env = true) (hok : t.allNodes (nodeOK env) = true)
+    (hat : t.at? q = some (.node (.element name) ks))
+    (hids : (xmlIdValues env (.node (.element name) ks)).Nodup)
+    (hdt : p.doctype = none) (hind : p.indentation = some sup) :
+    ∃ X, standalone t q = some (.node .document [.node (.element name) (nsLeaves X ++ ks)]) ∧
+      Representable env (.node .document [.node (.element name) (nsLeaves X ++ ks)]) = true ∧
+      serializeXmlString env p t q =
+        serializeXmlString env p (.node .document [.node (.element name) (nsLeaves X ++ ks)]) [] := by
+  obtain ⟨X, h1, h2, h3, _⟩ := indent_inner_roundtrip env sup p t q name ks henv hok hat hids hdt hind
+  exact ⟨X, h1, h2, h3⟩
+
+/-- **C14_indent_roundtrip_inner, general form**: `t` any tree that is `nodeOK` everywhere (a document, a
+    fragment, a parentless element), sane tables, no repeated `xml:id` value below the start element: `parse` of
+    the indented text of the element at `q` gives `prettyTree sup` of the standalone document, which differs
+    from it only by added whitespace-only text nodes; tables unchanged. -/
+theorem C14_indent_roundtrip_inner_nodes (env : Env) (p : XmlParams) (sup : List Nat) (t : Tree) (q : Path)
+    (name : Nat) (ks : List Tree) (henv : envOK env = true) (hok : t.allNodes (nodeOK env) = true)
+    (hat : t.at? q = some (.node (.element name) ks))
+    (hids : (xmlIdValues env (.node (.element name) ks)).Nodup)
+    (hdt : p.doctype = none) (hind : p.indentation = some sup)
+    (henc : ∀ d e, p.declaration = some d → d.encoding = some e → Prolog.isEncName e = true)
+    (s : Str) (hs : serializeXmlString env p t q = .ok s) :
+    ∃ r X, standalone t q = some (.node .document [.node (.element name) (nsLeaves X ++ ks)]) ∧
+      Representable env (.node .document [.node (.element name) (nsLeaves X ++ ks)]) = true ∧
+      parseString .document env s = .ok r ∧
+      r.tree = prettyTree sup (.node .document [.node (.element name) (nsLeaves X ++ ks)]) ∧ r.env = env ∧
+      AddsWs (.node .document [.node (.element name) (nsLeaves X ++ ks)]) r.tree := by
+  obtain ⟨X, h1, h2, _, h4⟩ := indent_inner_roundtrip env sup p t q name ks henv hok hat hids hdt hind
+  obtain ⟨r, k1, k2, k3⟩ := h4 s henc hs
+  exact ⟨r, X, h1, h2, k1, k2, k3, by rw [k2]; exact addsWs_prettyTree sup _⟩
+
+/-- **C14_indent_roundtrip_inner**: an element anywhere inside a representable document or fragment, under
+    the hypotheses of `C14_options_indent`. -/
+theorem C14_indent_roundtrip_inner (env : Env) (p : XmlParams) (sup : List Nat) (t : Tree)
+    (hr : RepresentableFragment env t = true) (q : Path) (name : Nat) (ks : List Tree)
+    (hat : t.at? q = some (.node (.element name) ks))
+    (hdt : p.doctype = none) (hind : p.indentation = some sup)
+    (henc : ∀ d e, p.declaration = some d → d.encoding = some e → Prolog.isEncName e = true)
+    (s : Str) (hs : serializeXmlString env p t q = .ok s) :
+    ∃ r X, standalone t q = some (.node .document [.node (.element name) (nsLeaves X ++ ks)]) ∧
+      Representable env (.node .document [.node (.element name) (nsLeaves X ++ ks)]) = true ∧
+      parseString .document env s = .ok r ∧
+      r.tree = prettyTree sup (.node .document [.node (.element name) (nsLeaves X ++ ks)]) ∧ r.env = env ∧
+      AddsWs (.node .document [.node (.element name) (nsLeaves X ++ ks)]) r.tree := by
+  obtain ⟨henv, _, hn, hid⟩ := (representableFragment_iff env t).mp hr
+  exact C14_indent_roundtrip_inner_nodes env p sup t q name ks henv hn hat
+    (hid.sublist (xmlIdValues_at?_sublist q t _ hat)) hdt hind henc s hs
+
+/-- Non-vacuity, closed (tree and tables of Props/C01, "a start node inside a tree"): the inner element `m`
+    (path `[0, 4]`) with indentation writes the inherited `xmlns="urn:a" xmlns:q="urn:b"` and three lines. -/
+def c14InnerText : Str :=
+  "<m xmlns=\"urn:a\" xmlns:q=\"urn:b\" xmlns:p=\"urn:a\" q:w=\"v\">\n  <q:c/>\n</m>\n".toList
+
+example : serializeXmlString c01InnerEnv { indentation := some [] } c01InnerDoc [0, 4] = .ok c14InnerText := by decide
+example : serializeXmlString c01InnerEnv { indentation := some [] } c01InnerStandalone [] = .ok c14InnerText := by decide
+example : ∃ r, parseString .document c01InnerEnv c14InnerText = .ok r ∧ r.tree = prettyTree [] c01InnerStandalone ∧
+    r.env = c01InnerEnv := by
+  obtain ⟨r, X, h1, _, h2, h3, h4, _⟩ := C14_indent_roundtrip_inner c01InnerEnv { indentation := some [] } []
+    c01InnerDoc (by decide) [0, 4] 4 _ rfl rfl rfl (by intro d e hd; cases hd) c14InnerText (by decide)
+  have hX : standalone c01InnerDoc [0, 4] = some c01InnerStandalone := rfl
+  rw [hX, Option.some.injEq] at h1
+  rw [← h1] at h3
+  exact ⟨r, h2, h3, h4⟩
+example : prettyTree [] c01InnerStandalone =
+    .node .document [.node (.element 4) [.node (.namespace 0 2) [], .node (.namespace 3 3) [], .node (.namespace 2 2) [],
+      .node (.attribute 5 ['v']) [], .node (.text ['\n', ' ', ' ']) [], .node (.element 3) [],
+      .node (.text ['\n']) []]] := by rfl
 
 /-! ### C14_normalizer: the `*_with_normalizer` entry points
 
